@@ -23,6 +23,7 @@ INVS_PROP = "HierarchyExclusion Order AtMostOnce NoStrand SyncAfterEnd"
 MODELS = {
     "C1q": dict(shape=("C1", "C1", "C1"), prog="C1q"),     # serial L -> serial B: async + sync on L
     "C1":  dict(shape=("C1", "C1", "C1"), prog="C1"),      # + async on B
+    "C1b": dict(shape=("C1", "C1", "C1"), prog="C1b"),     # sync directly on the bottom racing an async on the leaf
     "C2q": dict(shape=("C2", "C2", "C2"), prog="C2q"),     # fan-in, asyncs on both leaves
     "C2s": dict(shape=("C2", "C2", "C2"), prog="C2s"),     # fan-in, async on one leaf, sync through the other
     "C2":  dict(shape=("C2", "C2", "C2"), prog="C2"),
@@ -37,6 +38,7 @@ MODELS = {
     "C6x": dict(shape=("C6", "C6", "C6"), prog="C6x"),
     "C7q": dict(shape=("C6", "C6", "C7"), prog="C7q"),     # serial over concurrent over serial
     "C7":  dict(shape=("C6", "C6", "C7"), prog="C7"),
+    "C7r": dict(shape=("C6", "C6", "C7"), prog="C6"),     # waiter of the serial leaf re-pushed on / reserved from the concurrent middle
 }
 
 
@@ -198,8 +200,10 @@ def validate_queue(v, tr, q, W, nt, desc, meta, lanes=None, res=None):
         except Exception:
             f = "?"
         p = save_replay(PROP, "rejected_%s" % os.path.basename(tr), src=res.trace_with_header)
-        why = ("invariant %s violated" % res.violated) if res.violated else \
+        why = ("invariant %s (width accounting of the word) violated" % res.violated) if res.violated else \
             "record %d (%s) of queue #%d is not a transition its DQState operator allows" % (k, f, q)
+        if res.violated and not res.maxl:
+            rec = ""
         # every dq_state function guards the hierarchy: each level's lock is one of its locks
         v.violation("word-level trace of queue #%d rejected (%s): %s: %s" % (q, desc, why, rec[:500]), p)
         return False
@@ -288,8 +292,10 @@ def run(tier, seed):
         "real executions sample schedules (seeded perturbation inside the library's atomicity windows)",
     ]
     quick = tier == "quick"
-    names = ["C1q", "C2q", "C3q", "C4", "C5", "C7q"] if quick else \
-            ["C1q", "C1", "C2q", "C2s", "C2", "C3q", "C3", "C3b", "C4q", "C4", "C5", "C5s", "C6", "C6x", "C7q", "C7"]
+    import time
+    t0 = time.time()
+    names = ["C1q", "C2q", "C3q", "C4q", "C5", "C7r"] if quick else \
+            ["C1q", "C1b", "C1", "C2q", "C2s", "C2", "C3q", "C3", "C3b", "C4q", "C4", "C5", "C5s", "C6", "C6x", "C7q", "C7r", "C7"]
     # sync_recurse stops before the bottom level -> a sync caller overlaps an item of the bottom queue;
     # complete_recurse forgets the bottom level -> the bottom stays locked, work is stranded;
     # the waiter popped from an inner queue is woken instead of being re-pushed on the target -> overlap;
@@ -303,7 +309,9 @@ def run(tier, seed):
     v.notes["equivalent_spec_mutant"] = ("repush_without_barrier_flag (waiter re-pushed on a serial target without DC_FLAG_BARRIER) "
                                          "is NOT observable: a serial drain and _dispatch_lane_barrier_complete treat every object of a "
                                          "width-1 queue as a barrier whatever its flags")
+    t1 = time.time()
     dqstate_conformance(v, PROP)
+    t2 = time.time()
     shapes = [0, 1, 2, 3, 4, 5, 7, 6]
     runs = []
     if quick:
@@ -315,6 +323,8 @@ def run(tier, seed):
                 runs.append(dict(shape=shp, cw=2 + (k + rep) % 2, execs=8, ops=35, perturb=2 + (k + rep) % 2, nt=3 + rep % 2,
                                  pp=0 if rep == 3 else 1))
     drive(v, seed, runs)
+    v.notes["phase_wall_s"] = {"tlc_models_and_mutants": round(t1 - t0, 1), "dqstate_conformance": round(t2 - t1, 1),
+                               "real_executions_and_word_level_validation": round(time.time() - t2, 1)}
     return v.finish()
 
 
